@@ -334,4 +334,126 @@ def postCheckBlock (h : Bytes → Bytes) (c : Consensus) (i : PostIn) : Option (
 def checkBlockDos (pre : PreOut) (post : Option PostErr) : Bool :=
   if pre.err = .ok then (match post with | some .ok => false | some _ => true | none => false) else pre.dos
 
+/-! ### CheckBlock with its effects made explicit
+
+  `Chain.CheckBlock(bl)` reads the chain (`ch.BlockIndex[...]`, `ch.LastBlock()`, the parent's ancestors) and
+  writes only into the block object it is given: `bl.Height`, `bl.MedianPastTime` (PreCheckBlock), `bl.Txs` (+ the
+  sizes/weight BuildTxList derives from `bl.Raw`) and `bl.VerifyFlags` (PostCheckBlock). `checkBlockM` threads the
+  chain state through every path and returns it, so that "nothing changes" is a statement about this definition.
+  The two map look-ups that `preCheckBlock` takes as inputs are made here, from the state. -/
+
+/-- what `CheckBlock` can reach of `chain.Chain`: the block tree, the `BlockIndex` map, the tip and the unspent
+    set (`U` is opaque: no statement of CheckBlock mentions `ch.Unspent`) -/
+structure ChainSt (U : Type) where
+  nodes : Array (Node × Int)     -- BlockTreeNode (height, timestamp, bits) and the number of its Parent (-1 = nil)
+  index : List (Nat × Nat)       -- BlockIndex: BIdx (first 8 bytes of the hash, little endian) ↦ node number
+  last : Nat                     -- node number of ch.LastBlock()
+  unspent : U
+
+def chainOf (nodes : Array (Node × Int)) : Nat → Int → List Node
+  | 0, _ => []
+  | fuel+1, idx =>
+    if idx < 0 then [] else
+    match nodes[idx.toNat]? with
+    | none => []
+    | some (n, p) => n :: chainOf nodes fuel p
+
+/-- a node followed by its ancestors (the `Parent` pointers) -/
+def ChainSt.chain {U : Type} (cs : ChainSt U) (idx : Nat) : List Node := chainOf cs.nodes (cs.nodes.size + 1) idx
+
+def lookupKey (l : List (Nat × Nat)) (k : Nat) : Option Nat := (l.find? (·.1 == k)).map (·.2)
+
+/-- the `*btc.Block` object -/
+structure BlockObj where
+  -- fixed by `Raw` / set by the caller before CheckBlock
+  rawLen : Nat
+  ver : Nat
+  hash : Nat                      -- bl.Hash as a number (PoW test)
+  hashKey : Nat                   -- bl.Hash.BIdx()
+  parentKey : Nat                 -- BIdx of bl.ParentHash()
+  bits : Nat
+  time : Nat
+  merkleRoot : Bytes
+  trusted : Bool
+  build : List Tx                 -- what BuildTxList() leaves in bl.Txs for this Raw (all of them, or those before the failure)
+  buildOk : Bool                  -- BuildTxList() returned nil
+  -- assigned by CheckBlock
+  height : Nat
+  mtp : Nat
+  txs : Option (List Tx)          -- none = nil
+  verifyFlags : Nat
+
+/-- PreCheckBlock returned after `bl.Height = prevblk.Height + 1` -/
+def PreErr.setsHeight : PreErr → Bool
+  | .tooDeep | .badDiffBits | .timeTooOld | .badVersionGate | .ok => true
+  | _ => false
+
+/-- PreCheckBlock returned after `bl.MedianPastTime = prevblk.GetMedianTimePast()` -/
+def PreErr.setsMtp : PreErr → Bool
+  | .timeTooOld | .badVersionGate | .ok => true
+  | _ => false
+
+/-- PostCheckBlock returned after `ch.ApplyBlockFlags(bl)` -/
+def PostErr.setsFlags : PostErr → Bool
+  | .ok | .nonceSize | .witnessMerkle | .unexpectedWitness | .tx _ => true
+  | _ => false
+
+/-- the inputs of `preCheckBlock` as PreCheckBlock obtains them from the chain state -/
+def preInOf {U : Type} (cs : ChainSt U) (bl : BlockObj) (now : Int) : PreIn :=
+  let parentIdx := lookupKey cs.index bl.parentKey
+  { rawLen := bl.rawLen, ver := bl.ver, hash := bl.hash, bits := bl.bits, time := bl.time, now := now,
+    known := (lookupKey cs.index bl.hashKey).map (fun n => match cs.nodes[n]? with | some (_, p) => decide (p < 0) | none => false),
+    parent := parentIdx.map cs.chain,
+    parentIsLast := parentIdx == some cs.last,
+    lastHeight := match cs.nodes[cs.last]? with | some (n, _) => n.height | none => 0 }
+
+/-- the block object as PreCheckBlock leaves it -/
+def afterPre (bl : BlockObj) (o : PreOut) : BlockObj :=
+  { bl with height := if o.err.setsHeight then o.height else bl.height,
+            mtp := if o.err.setsMtp then o.mtp else bl.mtp }
+
+/-- the inputs of `postCheckBlock` for a block object that passed PreCheckBlock -/
+def postInOf (bl : BlockObj) : PostIn :=
+  { rawLen := bl.rawLen, preParsed := bl.txs.isSome, buildOk := bl.buildOk, trusted := bl.trusted, height := bl.height,
+    mtp := bl.mtp, time := bl.time, merkleRoot := bl.merkleRoot, txs := bl.txs.getD bl.build }
+
+/-- the block object as PostCheckBlock leaves it: `bl.Txs` is assigned by BuildTxList when it was nil and the size
+    test passed; `bl.VerifyFlags` when ApplyBlockFlags was reached -/
+def afterPost (bl : BlockObj) (e : PostErr) (flags : Nat) : BlockObj :=
+  { bl with txs := if bl.txs.isNone && decide (bl.rawLen ≥ postMinRawLen) then some bl.build else bl.txs,
+            verifyFlags := if e.setsFlags then flags else bl.verifyFlags }
+
+structure CheckRes where
+  dos : Bool
+  maybelater : Bool
+  code : String
+  deriving Repr, DecidableEq
+
+/-- `Chain.CheckBlock(bl)`: the chain state after the call, the block object after the call, the result.
+    `none` = a Go panic (only for chain states that violate the tree invariants). -/
+def checkBlockM {U : Type} (p : Params) (c : Consensus) (h : Bytes → Bytes) (now : Int)
+    (cs : ChainSt U) (bl : BlockObj) : Option (ChainSt U × BlockObj × CheckRes) :=
+  match preCheckBlock p c (preInOf cs bl now) with
+  | none => none
+  | some o =>
+    let bl1 := afterPre bl o
+    if o.err ≠ .ok then some (cs, bl1, { dos := o.dos, maybelater := o.maybelater, code := o.err.code })
+    else
+      match postCheckBlock h c (postInOf bl1) with
+      | none => none
+      | some (e, flags) =>
+        some (cs, afterPost bl1 e flags, { dos := decide (e ≠ .ok), maybelater := o.maybelater, code := e.code })
+
+/-! ### the consensus parameters NewChainExt installs (regenerated constants) -/
+
+def mainnetConsensus : Consensus :=
+  { bip34Height := mainnet_BIP34Height, bip65Height := mainnet_BIP65Height, bip66Height := mainnet_BIP66Height,
+    enforceCSV := mainnet_Enforce_CSV, enforceSegwit := mainnet_Enforce_SEGWIT, enforceTaproot := mainnet_Enforce_Taproot }
+def testnet3Consensus : Consensus :=
+  { bip34Height := testnet3_BIP34Height, bip65Height := testnet3_BIP65Height, bip66Height := testnet3_BIP66Height,
+    enforceCSV := testnet3_Enforce_CSV, enforceSegwit := testnet3_Enforce_SEGWIT, enforceTaproot := testnet3_Enforce_Taproot }
+def testnet4Consensus : Consensus :=
+  { bip34Height := testnet4_BIP34Height, bip65Height := testnet4_BIP65Height, bip66Height := testnet4_BIP66Height,
+    enforceCSV := testnet4_Enforce_CSV, enforceSegwit := testnet4_Enforce_SEGWIT, enforceTaproot := testnet4_Enforce_Taproot }
+
 end GocoinV.BlockCheck
